@@ -20,6 +20,12 @@ spec -> code
   * the outcome classes are enacted with several VALUE CLASSES (spec variable `named`): the value a
     failing step is handed / a `wrong` step returns is a cogent3 object, a dict with or without
     info/source (incl. "info": None as to_rich_dict() makes), a path string or bytes.
+growth (beyond the listed property)
+  * ComposedAppRuns.tla (runs_C14.py): histories of apply_to runs on one output store - resuming in
+    append mode, one log record per logged run written after the data records and naming what the
+    run wrote, refused argument lists, mixed path / member inputs, as_completed;
+  * ComposedAppLinks.tla (links_C14.py): composing, using, disconnecting and re-composing the same
+    app objects, opt-in steps (skip_not_completed=False), type checks at composition and at call.
 code -> spec
   * free-running parallel runs with skewed task durations, the forced runs and a sample of the
     serial runs are turned into event traces (time stamps from workers and master) that
